@@ -937,7 +937,7 @@ impl Cx<'_> {
         // `#[ts(as = "Other")]` (+ `inline`): the binding - and the dependencies - are those of the
         // other type, the field's own type does not show
         // (more often on unnamed fields: a newtype has a code path of its own)
-        if self.p.field_as > 0 && f.type_override.is_none() && !f.as_same && f.optional.is_none() && !f.flatten && t.pct(self.p.field_as * if named { 1 } else { 3 }) {
+        if self.p.field_as > 0 && f.type_override.is_none() && !f.as_same && f.optional.is_none() && !f.flatten && t.pct(self.p.field_as * if named { 1 } else { 4 }) {
             let cands: Vec<usize> = (0..self.types.len()).filter(|i| self.types[*i].params.is_empty() && self.types[*i].lifetimes.is_empty() && self.types[*i].consts.is_empty()).collect();
             if !cands.is_empty() {
                 let u = TyExpr::User(*t.pick(&cands), vec![]);
@@ -995,20 +995,21 @@ impl Cx<'_> {
         let mut const_first = false;
         let mut const_default = false;
         if self.p.rich_generics && t.pct(self.p.generics) {
-            let n = 1 + t.weighted(&[40, 40, 20]);
+            // (no type parameter at all now and then: only a lifetime and / or a const parameter)
+            let n = t.weighted(&[12, 36, 34, 18]);
             for i in 0..n {
                 params.push(Param { name: ["T", "U", "V"][i].to_string(), default: None, concrete: None, ts_bound: false });
             }
             if t.pct(30) {
                 lifetimes.push("'a".to_string());
             }
-            if t.pct(35) {
+            if t.pct(35) || (n == 0 && lifetimes.is_empty()) {
                 consts.push("N".to_string());
                 const_first = t.pct(50);
                 const_default = t.pct(40);
             }
             // a default on the last parameter, possibly mentioning an earlier one
-            if t.pct(40) {
+            if n > 0 && t.pct(40) {
                 let d = if n >= 2 && t.pct(50) {
                     let earlier = TyExpr::Param(params[t.choose(n - 1)].name.clone());
                     match t.choose(3) {
@@ -1028,7 +1029,7 @@ impl Cx<'_> {
             }
             // concretise one or two parameters (with or without a default of their own) that no
             // default mentions
-            if t.pct(35) {
+            if n > 0 && t.pct(35) {
                 for _ in 0..1 + t.choose(2) {
                     let k = t.choose(n);
                     if !params.iter().any(|p| matches!(&p.default, Some(d) if mentions_param(d, &params[k].name))) {
